@@ -12,9 +12,10 @@ def run(ctx):
         "with and without FIN), reads with watermarks, single pops, skips and resets against the real Reassembler; a case is "
         "non-trivial when the implementation accepted a write/skip or handed out bytes, distinct by op line + resulting sizes")
     ctx.assumptions += [
-        "reassembler: the slot/allocation layer (chunk boundaries of a single pop, BytesMut splitting/unsplitting, unsafe assume!s) is "
-        "abstracted by Data.RefBuf; chunk lengths are only checked for legality (1 <= k <= min(watermark, len)), the debug "
-        "invariants() of the real code stay enabled in the harness build",
+        "reassembler: the theorems are about Data.RefBuf, which abstracts the slot/allocation layer (for it, chunk lengths are only "
+        "checked for legality: 1 <= k <= min(watermark, len)); Data.SlotBuf transcribes the slot layer and is tied to the real code by "
+        "the differential run incl. chunk boundaries and report(), but SlotBuf-refines-RefBuf is not proved; BytesMut pointer "
+        "bookkeeping and the unsafe assume!s are not modelled (the debug invariants() of the real code stay enabled in the harness build)",
         "reassembler: fallible readers (Error::ReaderError, cursor snapshot/rollback in write_reader) are outside the public "
         "write_at/write_at_fin API and not modelled"]
     step_extract(ctx, ["reassembler"])
@@ -26,6 +27,9 @@ def run(ctx):
     if not lean_ok:
         ctx.escalated = True
     g.diff(ctx, tier_n(ctx, 2500, 40000))
+    # second layer: Data.SlotBuf (transcription of the slot/allocation code) against the same real object,
+    # compared including the chunk boundaries of every pop and report()
+    step_diff(ctx, "vh-core", "reassembler-slots", "reassembler_slots", tier_n(ctx, 1500, 20000))
     if ctx.tier == "thorough" or ctx.escalated:
         ctx.exhaustive = True
         ctx.extra["reassembler_exhaustive"] = (f"all op sequences of length <= 4 over {len(g.EX_FULL)} ops (6 offsets x 4 lengths, FIN variants, "
